@@ -493,9 +493,15 @@ impl InterfaceInner {
                 lladdr,
                 ..
             } => {
+                // Per RFC 4861 § 7.1.1, a solicitation whose target is a multicast (or the
+                // unspecified) address is invalid, with or without a source link-layer option.
+                if !target_addr.x_is_unicast() {
+                    return None;
+                }
+
                 if let Some(lladdr) = lladdr {
                     let lladdr = check!(lladdr.parse(self.caps.medium));
-                    if !lladdr.is_unicast() || !target_addr.x_is_unicast() {
+                    if !lladdr.is_unicast() {
                         return None;
                     }
                     self.neighbor_cache
